@@ -280,6 +280,35 @@ theorem frame_format (id : Nat) (data : Bytes) (remote : Bool) :
 example : sendMessage true 0x7FF [1, 2] false = some ⟨0x7FF, false, [1, 2], false⟩ ∧
     sendMessage true 0x800 [1, 2] false = some ⟨0x800, true, [1, 2], false⟩ := by decide
 
+/-- A periodic message whose payload is updated any number of times (`PeriodicMessageTask.update`)
+    keeps exactly its id, its format and its remote flag, and carries the last payload given. -/
+theorem periodic_update_frame (id : Nat) (data : Bytes) (remote : Bool) (ups : List Bytes) :
+    let m := ups.foldl periodicUpdate (periodicMessage id data remote)
+    m.id = id ∧ m.remote = remote ∧ (m.extended = true ↔ id > 0x7FF) ∧
+    (∀ last, ups.getLast? = some last → m.data = last) := by
+  have key : ∀ (ups : List Bytes) (m0 : CanMsg),
+      (ups.foldl periodicUpdate m0).id = m0.id ∧ (ups.foldl periodicUpdate m0).remote = m0.remote ∧
+      (ups.foldl periodicUpdate m0).extended = m0.extended ∧
+      (∀ last, ups.getLast? = some last → (ups.foldl periodicUpdate m0).data = last) := by
+    intro ups
+    induction ups with
+    | nil => intro m0; simp
+    | cons u us ih =>
+      intro m0
+      obtain ⟨h1, h2, h3, h4⟩ := ih (periodicUpdate m0 u)
+      refine ⟨by simpa [periodicUpdate] using h1, by simpa [periodicUpdate] using h2,
+        by simpa [periodicUpdate] using h3, ?_⟩
+      intro last hl
+      cases us with
+      | nil => simp at hl; subst hl; simp [periodicUpdate]
+      | cons v vs => exact h4 last (by simpa using hl)
+  obtain ⟨h1, h2, h3, h4⟩ := key ups (periodicMessage id data remote)
+  refine ⟨by simpa [periodicMessage, mkMessage] using h1, by simpa [periodicMessage, mkMessage] using h2, ?_, h4⟩
+  rw [h3]; simp [periodicMessage, mkMessage]
+
+example : ([[3], [4, 5]].foldl periodicUpdate (periodicMessage 0x181 [1] false)) = ⟨0x181, false, [4, 5], false⟩ := by
+  decide
+
 /-! ## T listener_filter -/
 
 /-- The bus listener never dispatches an error frame or a remote frame (no callback runs, no
